@@ -133,7 +133,11 @@ func crossCheckAccept(t *rapid.T, h string, info acceptInfo) {
 func TestPropHTTPResponse(t *testing.T) {
 	rapid.Check(t, func(t *rapid.T) {
 		accept, info := genAccept(t)
-		v := genSubject(t, domHTTP)
+		var v any = genSubject(t, domHTTP)
+		if rapid.IntRange(0, 3).Draw(t, "tailvalue") == 0 {
+			v = genTail(t, domHTTP)
+			stats.Class("http_value_tail")
+		}
 		if accept != "" {
 			crossCheckAccept(t, accept, info)
 		}
@@ -184,7 +188,9 @@ func TestPropHTTPRequest(t *testing.T) {
 		}
 		var v any
 		var kind string
-		if isSerial(f) || f == dsd.AUTO {
+		if isMime(f) && rapid.IntRange(0, 3).Draw(t, "tailvalue") == 0 {
+			v, kind = genTail(t, domHTTP), "tail"
+		} else if isSerial(f) || f == dsd.AUTO {
 			v, kind = genValueFor(t, f)
 		} else {
 			v, kind = genSubject(t, domHTTP), "subject"
